@@ -115,3 +115,8 @@ declare_class(
         "haplotype_lc_dict": TDict(STR, STR),
     },
 )
+
+# "what-if" wrappers around one end of an overlap result (build_utils.py)
+declare_class("OverhangPremise", fields={"scaffold": TRef("OverlapResult"), "fragment": FRAG})
+declare_class("StartOverhangPremise", bases=["OverhangPremise"], fields={})
+declare_class("EndOverhangPremise", bases=["OverhangPremise"], fields={})
